@@ -1,4 +1,5 @@
 import Mathlib.Analysis.SpecialFunctions.Gaussian.GaussianIntegral
+import PW.Proofs.OverlapGeneral
 /-!
 # C19 — temporal-mode overlap is the normalised overlap integral
 
@@ -69,6 +70,12 @@ theorem overlap_range (σ a b : ℝ) (hσ : 0 < σ) :
   have h : -((a - b) ^ 2) / (4 * σ ^ 2) = -((a - b) ^ 2 / (4 * σ ^ 2)) := by ring
   rw [h]; linarith
 
+/-- **different widths**: `∫ g_{σ₁}(t−a) g_{σ₂}(t−b) dt = √(2σ₁σ₂/(σ₁²+σ₂²)) · exp(−(a−b)²/(2(σ₁²+σ₂²)))` -/
+theorem overlap_unequal_widths (σ₁ σ₂ a b : ℝ) (h1 : 0 < σ₁) (h2 : 0 < σ₂) :
+    ∫ t, PW.OverlapGeneral.gprof σ₁ a t * PW.OverlapGeneral.gprof σ₂ b t
+      = √(2 * σ₁ * σ₂ / (σ₁ ^ 2 + σ₂ ^ 2)) * exp (-((a - b) ^ 2) / (2 * (σ₁ ^ 2 + σ₂ ^ 2))) :=
+  PW.OverlapGeneral.overlap_general σ₁ σ₂ a b h1 h2
+
 example : (0 : ℝ) < 42.45e-15 := by norm_num  -- the default pulse width satisfies the hypothesis
 
 end PW.Props.C19
@@ -79,3 +86,4 @@ end PW.Props.C19
 #print axioms PW.Props.C19.overlap_delayed_equal
 #print axioms PW.Props.C19.overlap_symmetric
 #print axioms PW.Props.C19.overlap_range
+#print axioms PW.Props.C19.overlap_unequal_widths
